@@ -132,7 +132,7 @@ def install(ctx, repo, probes):
     ctx.target("sibling/repetitions", "sibling/start", "sibling/end",
                "sibling/interval", "twin/zone", "twin/representation",
                "twin/units", "roundtrip/fmt1", "roundtrip/fmt3",
-               "roundtrip/fmt4")
+               "roundtrip/fmt4", "roundtrip/cross-mode")
 
 
 def _insts(mode, pts):
@@ -229,6 +229,45 @@ def run_case(ctx, repo, case):
             ctx.nontrivial((dkey, "roundtrip"))
     finally:
         repo.set_mode("gregorian")
+
+
+def cross_mode_roundtrip(ctx, repo, rng):
+    """the same parser object and the same text under two calendar modes:
+    parsing is a function of (text, active mode)"""
+    n = rng.choice((2, 3, 4, 6))
+    day = rng.choice((1, 2, 3))
+    month = rng.choice((3, 1, 12))
+    end = {"year": rng.choice((2000, 2001, 2004)), "month_of_year": month,
+           "day_of_month": day, "hour_of_day": 0, "minute_of_hour": 0,
+           "second_of_minute": 0}
+    dur = rng.choice(({"days": 1}, {"days": 2}, {"hours": 36}, {"weeks": 1}))
+    texts = {}
+    for mode in rng.sample(R.MODES, 4):
+        desc = {"mode": mode, "fmt": rng.choice((3, 4)), "reps": n,
+                "dur": dur}
+        desc["end" if desc["fmt"] == 4 else "start"] = end
+        desc["fmt"] = 4
+        desc.pop("start", None)
+        desc["end"] = end
+        repo.set_mode(mode)
+        try:
+            rec = recgen.build(repo, desc)
+            s = str(rec)
+            back = ctx.rparser.parse(s)
+            ctx.ev("roundtrip.cross-mode")
+            if (back == rec) is not True or _insts(mode, _series(back)) != \
+                    _insts(mode, _series(rec)):
+                ctx.case = {"op": "cross-mode", "desc": desc}
+                ctx.violation("roundtrip.cross-mode", "parse(str(r)) under "
+                              "mode %s after the same text was parsed under "
+                              "%r: %s vs %s (text %r)" % (
+                                  mode, sorted(texts), _rk(back), _rk(rec),
+                                  s))
+            else:
+                ctx.cls("roundtrip/cross-mode")
+            texts[mode] = s
+        finally:
+            repo.set_mode("gregorian")
 
 
 def sibling_variants(repo, rec):
@@ -362,3 +401,5 @@ def workload(ctx, repo):
         if k % 173 == 0:
             ctx.sample(case)
         run_case(ctx, repo, case)
+        if k % 25 == 0:
+            cross_mode_roundtrip(ctx, repo, rng)
